@@ -48,6 +48,7 @@ def jobs(tier, seed):
     pairs += [['km', 'm'], ['J', 's'], ['m', 's'], ['kHz', 'min'], ['kWh', 'h'], ['b/s', 'ms'], ['N', 'm']]
     for ch in C.chunks(pairs, 16):
         out.append({'fn': 'catalogue_sequences', 'cfg': {'pairs': ch}})
+    out.append({'fn': 'noref_sequences', 'cfg': {}})
     out.append({'fn': 'interleave', 'cfg': {'first': 5, 'depth': 1, 'canary': True}, 'canary': True})
     LAST_CONFIG_INFO.clear()
     LAST_CONFIG_INFO.update({'declarations': len(DECLS), 'probes': len(PROBES), 'depth': depth,
@@ -186,3 +187,42 @@ def catalogue_sequences(E, cfg):
             first, second = ((fu, eu, 'unit'), (fq, eq, 'qty')) if level == 'unit-first' else ((fq, eq, 'qty'), (fu, eu, 'unit'))
             for fn, ex, lv in (first, second):
                 c02._check_result(E, 'seq-%s-%s' % (name, lv), fn, vec, ex, info)
+
+
+def noref_sequences(E, cfg):
+    """derived type without reference unit (price per mass): the same operation for units of different
+    currencies, in every order, must not influence each other (shared unit-operation cache)"""
+    import quantity.predefined as pre
+    from quantity import Quantity
+    from quantity.money import Money
+    eur, usd, hkd = (Money.register_currency(c) for c in ('EUR', 'USD', 'HKD'))
+    PPM = C.mk_cls('PricePerMass', define_as=Money / pre.Mass)
+    units = {'EUR': PPM.derive_unit_from(eur, pre.KILOGRAM), 'USD': PPM.derive_unit_from(usd, pre.KILOGRAM),
+             'HKD': PPM.derive_unit_from(hkd, pre.KILOGRAM)}
+    cur = {'EUR': eur, 'USD': usd, 'HKD': hkd}
+    p = E.rational('p', 'dec')
+    m = E.rational('m', 'dec')
+    E.assume(E.And(p != 0, m != 0))
+    order = E.choice('order', [('EUR', 'USD', 'HKD'), ('USD', 'EUR', 'HKD'), ('HKD', 'USD', 'EUR'), ('EUR', 'EUR', 'USD'),
+                               ('USD', 'HKD', 'USD')])
+    form = E.choice('form', ['mass*price', 'price*mass', 'unit*unit', 'money/mass'])
+    q = Fraction(1, 100)
+    for code in order:
+        mass = Quantity(m, pre.KILOGRAM)
+        price = Quantity(p, units[code])
+        info = [list(order), form, code]
+        if form == 'unit*unit':
+            amnt, u = pre.KILOGRAM * units[code]
+            E.check(u is cur[code] and amnt == 1, 'noref-unit-product-keeps-currency', key='hist:noref-unit-product', info=info)
+            continue
+        if form == 'money/mass':
+            mon = Money(p, cur[code])
+            r = mon / mass
+            E.check(type(r) is PPM and r.unit is units[code], 'noref-quotient-unit', key='hist:noref-quotient-unit', info=info)
+            E.check(r.amount == mon.amount / m, 'noref-quotient-value', key='hist:noref-quotient-value', info=info)
+            continue
+        r = mass * price if form == 'mass*price' else price * mass
+        E.check(type(r) is Money and r.unit is cur[code], 'noref-product-keeps-currency', key='hist:noref-product-currency',
+                info=info)
+        d = r.amount - p * m
+        E.check(E.And(E.is_int(r.amount / q), d < q, -q < d), 'noref-product-value', key='hist:noref-product-value', info=info)
